@@ -250,8 +250,8 @@ def run_programs(chk, fnd, bins, model, names, stream, progs, theorems, opt="1")
         sv = spec_program(G.denote_program(p["nodes"], p.get("bank"), names))
         dist["ok" if iv[0] == "OK" else "err"] += 1
         rep = {"kind": "program", "stream": stream, "program": prog, "tag": p.get("tag"), "budget": BUDGET,
-               "impl": show_view(iv), "model": show_view(mv), "spec": show_view(sv)}
-        if p.get("text"):
+               "impl": show_view(iv), "model": show_view(mv), "spec": show_view(sv), "static": opt}
+        if p.get("cond"):
             # conditional program: model and specification are evaluated on the selected world (taken arms inlined)
             rep["selected_world"] = G.render(p["nodes"], p.get("bank"))
             if iv != sv and p.get("f55"):
@@ -272,10 +272,10 @@ def run_programs(chk, fnd, bins, model, names, stream, progs, theorems, opt="1")
                     fnd.add("program-correspondence", "model/implementation correspondence broken (reserved name)", rep, found=False)
             continue
         if iv != sv:
-            fnd.add("cond-spec" if p.get("text") else "program-spec",
+            fnd.add("cond-spec" if p.get("cond") else "instr-spec" if p.get("nomodel") else "program-spec",
                     "%s: implementation %s, lexical scoping%s says %s" % (
-                        p.get("tag"), show_view(iv)[:80], " on the selected world" if p.get("text") else "", show_view(sv)[:80]), rep)
-        elif iv != mv:
+                        p.get("tag"), show_view(iv)[:80], " on the selected world" if p.get("cond") else "", show_view(sv)[:80]), rep)
+        elif iv != mv and not p.get("nomodel"):
             ndis += 1
             rep["theorems"] = theorems
             fnd.add("program-correspondence", "model/implementation correspondence broken (whole program)", rep, found=False)
@@ -556,7 +556,7 @@ def stream_cond(chk, fnd, bins, model, names, count):
         dist["in_f55_class"] += f55
         dist["ifs"] += G.count_ifs(items)
         dist["multi_stage"] += ("q2 ==" in text)
-        progs.append({"nodes": [n for n, _ in world], "text": text, "f55": f55,
+        progs.append({"nodes": [n for n, _ in world], "text": text, "f55": f55, "cond": True,
                       "tag": "%s conditional program (%d #if)" % (tag, G.count_ifs(items))})
         if not f55 and any(n[0] in ("L", "C") and n[1] > 0 and path for n, path in world):
             chk.nontriv(("cd", text))
@@ -576,6 +576,46 @@ def stream_cond(chk, fnd, bins, model, names, count):
     for i in (0, len(progs) - 1):
         if views[i]:
             chk.sample({"stream": "cond", "program": progs[i]["text"], "selected_world": G.render(progs[i]["nodes"]), "impl": show_view(views[i])})
+
+
+def stream_instr(chk, fnd, bins, model, names, count):
+    """instructions (single-match rule `ld {x: u8}`) that name local symbols declared under labels AND under constants,
+    some of them taking the address of a label, behind a `jmp` that shrinks after the first pass: the value an
+    instruction encodes is the FINAL value of the declaration lexical scoping selects, with the static-value
+    optimisation on and off (the matcher's static analysis walks the scopes on its own)."""
+    rng = chk.rng.fork("instr")
+    L, C, O = (lambda k, n: ("L", k, n)), (lambda k, n, e: ("C", k, n, e)), ("O",)
+    ref = lambda k, *p: ("r", k, list(p))
+    progs = []
+    hand = [
+        [L(0, "start"), ("J", ref(0, "end")), L(0, "mid"), C(1, "x", ("l", 85)), C(0, "c", ("l", 0)), C(1, "x", ref(0, "mid")),
+         ("X", ref(1, "x")), ("X", ref(0, "mid", "x")), ("X", ref(0, "c", "x")), L(0, "end")],
+        [L(0, "start"), ("J", ref(0, "end")), C(0, "c", ("l", 0)), C(1, "x", ("l", 85)), L(0, "mid"), C(1, "x", ref(0, "mid")),
+         ("X", ref(1, "x")), ("X", ref(0, "c", "x")), L(0, "end")],
+        [L(0, "start"), ("J", ref(0, "end")), L(0, "w"), L(1, "mid"), C(2, "x", ("l", 85)), C(1, "c", ref(0, "end")), C(2, "x", ref(0, "w", "mid")),
+         ("X", ref(2, "x")), ("X", ref(1, "c")), L(0, "end")],
+    ]
+    for nodes in hand:
+        progs.append({"nodes": nodes, "text": G.render(nodes), "nomodel": True, "tag": "instruction naming a local (directed)"})
+    while len(progs) < count:
+        nodes = G.gen_instr_program(rng)
+        if nodes is None:
+            continue
+        progs.append({"nodes": nodes, "text": G.render(nodes), "nomodel": True, "tag": "instruction naming a local"})
+    for p in progs:
+        if any(n[0] == "C" and n[3][0] != "l" for n in p["nodes"]):
+            chk.nontriv(("in", p["text"]))
+    von = run_programs(chk, fnd, bins, model, names, "instr", progs, ["C15_lookup", "C15_forward"], opt="1")
+    voff = run_programs(chk, fnd, bins, model, names, "instr", progs, ["C15_lookup", "C15_forward"], opt="0")
+    for i, p in enumerate(progs):
+        if von[i] is not None and voff[i] is not None and von[i] != voff[i]:
+            fnd.add("instr-static-switch", "an instruction naming a local symbol encodes different values with the static optimisation on and off",
+                    {"kind": "program", "stream": "instr", "program": p["text"], "budget": BUDGET, "static": "1",
+                     "impl": show_view(von[i]), "spec": "with the optimisation off: " + show_view(voff[i])})
+    if von[0]:
+        chk.sample({"stream": "instr", "program": progs[0]["text"], "impl": show_view(von[0])})
+    if von[-1]:
+        chk.sample({"stream": "instr", "program": progs[-1]["text"], "impl": show_view(von[-1])})
 
 
 def directed(chk, fnd, bins, model, names):
@@ -637,6 +677,7 @@ def run(chk):
     stream_chain(chk, fnd, bins, model, names, cases)
     stream_order(chk, fnd, bins, model, names, 800 if quick else 6000)
     stream_cond(chk, fnd, bins, model, names, 3000 if quick else 25000)
+    stream_instr(chk, fnd, bins, model, names, 2500 if quick else 20000)
     fnd.flush()
 
 
@@ -651,7 +692,7 @@ def replay(chk, rep):
     elif r.get("kind") == "rounds":
         out = vlib.run_lines([bins["debug"] + "/symbols"], ["R\t%s\t%s" % ("1" if r.get("static", True) else "0", vlib.hx(prog))], shards=1)
     else:
-        out = vlib.run_lines([bins["debug"] + "/asmtext"], ["A\t%d\t1\t1\t%s" % (r.get("budget", BUDGET), vlib.hx(prog))], shards=1)
+        out = vlib.run_lines([bins["debug"] + "/asmtext"], ["A\t%d\t%s\t1\t%s" % (r.get("budget", BUDGET), r.get("static", "1"), vlib.hx(prog))], shards=1)
         f = out[0].split("\t")
         if f[0] == "OK":
             out = [show_view(impl_program(out[0]))]
